@@ -48,8 +48,8 @@ func refStrings(n any, out *[]string) {
 			*out = append(*out, r)
 		}
 		for _, k := range sortedKeys(x) {
-			if k == "value" || k == "example" || k == "default" {
-				continue
+			if k == "value" || k == "example" || k == "default" || strings.HasPrefix(k, "x-") {
+				continue // data, not document structure: example values, defaults and specification extensions
 			}
 			refStrings(x[k], out)
 		}
@@ -58,6 +58,33 @@ func refStrings(n any, out *[]string) {
 			refStrings(e, out)
 		}
 	}
+}
+
+// diffClass abstracts a diff to its last path token and the kind of difference.
+func diffClass(d string) string {
+	path, note := d, ""
+	if i := strings.Index(d, " ("); i > 0 {
+		path, note = d[:i], d[i:]
+	}
+	toks := strings.Split(path, "/")
+	if j := strings.Index(note, " vs "); j > 0 {
+		note = " (changed)"
+	}
+	return toks[len(toks)-1] + note
+}
+
+// errClass maps an error text to a coarse class that survives rewording of names.
+func errClass(e string) string {
+	for _, k := range []string{"found unresolved ref", "is not supported", "MUST be an object", "failed to resolve", "disallowed external reference"} {
+		if strings.Contains(e, k) {
+			return k
+		}
+	}
+	t := reasonTemplate(e)
+	if len(t) > 32 {
+		t = t[:32]
+	}
+	return t
 }
 
 func init() {
@@ -148,7 +175,7 @@ func init() {
 			if err != nil {
 				d := cloneJSON(detail).(map[string]any)
 				d["reload_error"] = err.Error()
-				r.Fail(x, "reloads-without-external-refs", sig, d)
+				r.Fail(x, "reloads-without-external-refs:"+errClass(err.Error()), sig, d)
 				r.Outcome("reload-error")
 				return
 			}
@@ -156,7 +183,14 @@ func init() {
 			if newValid != origValid {
 				d := cloneJSON(detail).(map[string]any)
 				d["original_valid"], d["internalised_valid"] = origValid, newValid
-				r.Fail(x, "same-validation-verdict", sig, d)
+				if e := doc2.Validate(context.Background()); e != nil {
+					d["internalised_error"] = e.Error()
+				}
+				cl := "same-validation-verdict"
+				if e, ok := d["internalised_error"].(string); ok {
+					cl += ":" + errClass(e)
+				}
+				r.Fail(x, cl, sig, d)
 			}
 			after := eraseRefs(generic(ExpandImpl(doc2, 4)))
 			bm, _ := before.(map[string]any)
@@ -170,14 +204,14 @@ func init() {
 						bs, _ := bc[sec].(map[string]any)
 						as, _ := ac[sec].(map[string]any)
 						for _, name := range sortedKeys(bs) {
-							for _, d := range DiffJSON(bs[name], as[name], 3) {
+							for _, d := range DiffJSONCut(bs[name], as[name], 3) {
 								diffs = append(diffs, "/components/"+sec+"/"+name+d)
 							}
 						}
 					}
 					continue
 				}
-				for _, d := range DiffJSON(bm[k], am[k], 4) {
+				for _, d := range DiffJSONCut(bm[k], am[k], 4) {
 					diffs = append(diffs, "/"+k+d)
 				}
 			}
@@ -187,7 +221,7 @@ func init() {
 					diffs = diffs[:6]
 				}
 				d["diff(original vs internalised)"] = diffs
-				r.Fail(x, "references-resolve-to-equal-content", sig, d)
+				r.Fail(x, "references-resolve-to-equal-content:"+diffClass(diffs[0]), sig, d)
 				r.Outcome("content-differs")
 				return
 			}
